@@ -75,6 +75,33 @@ def call_mv(logic, op, cs):
     return out
 
 
+def big_case(logic, n, seed):
+    """operands far larger than one batch of any internal chunking (64 KiB and beyond): array operators and bit-parallel operators against the
+    8 x 8 tables of the documented algebra; None or (operator, description)"""
+    rng = np.random.default_rng(seed)
+    T2 = {op: np.array([[SPEC[op]([a, b]) for b in range(8)] for a in range(8)], dtype=np.uint8) for op in ('and', 'or', 'xor')}
+    TN = np.array([s_not(a) for a in range(8)], dtype=np.uint8)
+    a = rng.integers(0, 8, size=n, dtype=np.uint8)
+    b = rng.integers(0, 8, size=n, dtype=np.uint8)
+
+    def first(got, exp):
+        i = int(np.argmax(np.asarray(got) != exp))
+        return f'n={n} seed={seed}: element {i} (operands {int(a[i])}, {int(b[i])}) is {int(np.asarray(got)[i])}, the algebra gives {int(exp[i])}'
+    for op in ('and', 'or', 'xor'):
+        for name, got in ((f'mv_{op}', getattr(logic, f'mv_{op}')(a, b)), (f'bp8v_{op}', call_bp(logic, 8, op, np.stack([a, b])))):
+            if not np.array_equal(np.asarray(got), T2[op][a, b]):
+                return name, first(got, T2[op][a, b])
+        a4, b4 = a & 3, b & 3
+        got = call_bp(logic, 4, op, np.stack([a4, b4]))
+        exp = T2[op][a4, b4]
+        if not np.array_equal(got, exp):
+            return f'bp4v_{op}', first(got, exp)
+    for name, got in (('mv_not', logic.mv_not(a)), ('bp8v_not', call_bp(logic, 8, 'not', a[np.newaxis]))):
+        if not np.array_equal(np.asarray(got), TN[a]):
+            return name, first(got, TN[a])
+    return None
+
+
 def array_layer(ck, logic):
     """Correspondence numpy / logic.mv_* vs the shape-polymorphic Coq model on random shapes (ranks 0..5, axes of length 1 and 0,
     missing leading axes, incompatible shapes, out= None / right / with extra leading 1 axes / wrong) + the contract stated by
@@ -324,6 +351,16 @@ def run(ck):
     else:
         ck.obligation('build Model/NdCorr.vo', False, 'correspondence', core.coq_first_error(log))
 
+    for n in [65536, 65537, 200001][:ck.scale(2, 3)]:
+        seed = ck.seed * 7919 + n
+        try:
+            r = big_case(logic, n, seed)
+        except Exception as e:
+            r = ('big-arrays', f'n={n} seed={seed}: raises {type(e).__name__}: {e}')
+        ck.count(1, 'big-array rounds (64 KiB and beyond, 11 operators each)')
+        if r:
+            ck.fail(f'big:{r[0]}', f'logic.{r[0]} on large arrays: {r[1]}', {'component': 'logic.' + r[0], 'input': {'big_n': n, 'big_seed': seed}, 'actual': r[1]})
+
     for name, operands, what in failures:
         ck.fail(f'op:{name}', f'{name} on operands {operands}: {what}',
                 {'component': name, 'input': {'operands': operands}, 'actual': what})
@@ -358,6 +395,11 @@ def replay(rp):
     inp = rp.get('input', {})
     if comp.startswith('array-layer:'):
         return replay_array_layer(rp)
+    if 'big_n' in inp:
+        try:
+            return big_case(logic, inp['big_n'], inp['big_seed']) is not None
+        except Exception:
+            return True
     if 'operands' in inp and inp['operands'] is not None:
         name, k = comp.replace('translator:', '').split('/')
         fmt, op = name.split('_')
